@@ -48,7 +48,15 @@ def cell_equal(base, spec_cell, real_cell, is_enum):
 
 def compare(res, par, raw=False, check_pairs=True):
     """res: SpecParse result (python form of the TLC value); par: a pydl yanny object.
-    Returns a list of human-readable differences (empty = equal)."""
+    Returns a list of human-readable differences (empty = equal).  Total: an object in a state
+    that cannot even be inspected (ragged columns, missing keys) is a difference, not a crash."""
+    try:
+        return _compare(res, par, raw, check_pairs)
+    except Exception as ex:  # noqa
+        return ['object cannot be inspected: %s: %s' % (type(ex).__name__, str(ex)[:150])]
+
+
+def _compare(res, par, raw=False, check_pairs=True):
     diffs = []
     if check_pairs:
         want = [(text(k), text(v)) for k, v in res['pairs']]
